@@ -9,14 +9,21 @@ Code-shaped model of `src/Watchdog.cc`, `Watchdog_inlines.hh`, `Time_inlines.hh`
   outside the model) with the code's `+=`, `-=`, `<`, `==` **as written**: `operator==` of
   `Time_inlines.hh` compares `y.microseconds()` with itself.  The Boolean parameter `eqBug`
   selects the code as written (`true`) or the repaired comparison (`false`).
-* Program steps are the statements of the constructor, destructor, `new_watchdog_event`,
-  `remove_watchdog_event`, `set_timer`, `stop_timer`, `get_timer`; consecutive statements are
-  merged into one step only where no access to a variable the signal handler can write while
-  `in_critical_section` holds (`last_time_requested`, the static buffer `signal_once`, the
-  interval timer) lies between them, and
-  never across the statements that set / clear `in_critical_section`.  The statement
-  `in_critical_section = true` of the constructor is merged with the constructor's entry
-  (time passing before it is time passing before the call).
+* Program steps ("statement groups") are delimited at every timer system call (before and after),
+  at the first read of `last_time_requested` after `get_timer`, at the statements that set / clear
+  `in_critical_section`, and between the destructor's test of `expired` and its critical
+  section.  Every group contains at most one access to the clock, so time passing between two
+  statements of a group is the same as time passing before or after the group: for the passage of
+  time the granularity is that of single statements.  What the grouping does not represent is a
+  DEFERRED signal (a timer expiry inside a critical section) landing strictly inside a group,
+  between two of its accesses to `last_time_requested` / `signal_once` (e.g. between
+  `last_time_requested = time` and `signal_once.it_value… = …` in `set_timer`); deferred signals at
+  the group boundaries — in particular right after `getitimer` returns and right before
+  `setitimer` is entered, where the real harness delivers them — are represented.  All runs with a
+  deferred signal belong to the class in which the clauses fail anyway (`…_fails_deferred_signal`),
+  and the theorems that hold for all schedules do not depend on these variables.
+  The statement `in_critical_section = true` of the constructor is merged with the constructor's
+  entry (time passing before it is time passing before the call).
 * Environment steps: `tick d` lets `d` microseconds pass (clipped at the expiry of the
   interval timer); when the timer reaches 0 the signal handler `handle_timeout` runs at that
   instant, whatever the program counter is: between two public operations, between reading
